@@ -76,6 +76,9 @@ type Config struct {
 	Origin   int64 `json:"origin"`
 	Executor int   `json:"executor"`
 	Keys     int   `json:"keys"`
+	// ConstCalc: the creating/writing calculators are built with the constant-duration constructors
+	// (otter.ExpiryCreating(d) ... instead of the ...Func forms); the duration tables are constant then.
+	ConstCalc bool `json:"const_calc,omitempty"`
 }
 
 // Layout returns the node layout name the configuration selects.
@@ -384,8 +387,14 @@ func BuildEnv(cfg Config, eo EnvOpts) *Env {
 	switch cfg.Expiry {
 	case ExpCreating:
 		o.ExpiryCalculator = otter.ExpiryCreatingFunc(f)
+		if cfg.ConstCalc {
+			o.ExpiryCalculator = otter.ExpiryCreating[int, int](time.Duration(cfg.ExpDur[0]))
+		}
 	case ExpWriting:
 		o.ExpiryCalculator = otter.ExpiryWritingFunc(f)
+		if cfg.ConstCalc {
+			o.ExpiryCalculator = otter.ExpiryWriting[int, int](time.Duration(cfg.ExpDur[0]))
+		}
 	case ExpAccessing:
 		o.ExpiryCalculator = otter.ExpiryAccessingFunc(f)
 	case ExpCustom:
@@ -399,8 +408,14 @@ func BuildEnv(cfg Config, eo EnvOpts) *Env {
 	switch cfg.Refresh {
 	case RefCreating:
 		o.RefreshCalculator = otter.RefreshCreatingFunc(g)
+		if cfg.ConstCalc {
+			o.RefreshCalculator = otter.RefreshCreating[int, int](time.Duration(cfg.RefDur[0]))
+		}
 	case RefWriting:
 		o.RefreshCalculator = otter.RefreshWritingFunc(g)
+		if cfg.ConstCalc {
+			o.RefreshCalculator = otter.RefreshWriting[int, int](time.Duration(cfg.RefDur[0]))
+		}
 	case RefCustom:
 		o.RefreshCalculator = customRefresh{h}
 	}
